@@ -80,7 +80,7 @@ Proof. exact rules_at_total. Qed.
 (* the two theory layers together: read with the literals the body theory (Model/BodyTheoryFull.v) has cached for their body formulas, in any
    assignment that violates none of its constraints, the rules added at a state are jointly HT-satisfied exactly if the shifted formula is *)
 Theorem C04_added_rules_with_their_literals_mean_the_shifted_formula :
-  forall (A : Type) (A_eq_dec : forall a b : A, {a = b} + {a <> b}) (h : nat) (s : st A), Inv A A_eq_dec h nil s ->
+  forall (A : Type) (A_eq_dec : forall a b : A, {a = b} + {a <> b}) (h : nat) (s : st A), Inv A A_eq_dec h nil s -> Wf A A_eq_dec s ->
   forall (T : HeadShift.trace A) (v : nat -> bool), ok_cls A T v s -> ok_ext A A_eq_dec v s ->
   forall (H : HeadShift.trace A) (inbase : A -> bool) (F : hf A) (d k : nat) (rs : list (hrule A)) (lss : list (list (lit A))),
   (forall a, inbase a = false -> H k a = false) -> rules_at A inbase F d = Some rs -> Forall2 (fun r ls => lits_of A A_eq_dec s k (bd A r) ls) rs lss ->
